@@ -9,7 +9,8 @@ open BstreamVerif
 
 /-- stored blocks have non-empty ids and parents and are not their own parent -/
 def WfEntries (db : DB) : Prop :=
-  ∀ e ∈ db.entries, e.blk.parent ≠ "" ∧ e.blk.id ≠ "" ∧ e.blk.id ≠ e.blk.parent
+  (∀ e ∈ db.entries, e.blk.parent ≠ "" ∧ e.blk.id ≠ "" ∧ e.blk.id ≠ e.blk.parent) ∧
+  (db.entries.map (·.blk.id)).Nodup
 
 /-- heights grow along parent links, also across the LIB reference -/
 def Heights (db : DB) : Prop :=
@@ -21,7 +22,7 @@ theorem find_mem (db : DB) (x : Id) (e : Entry) (h : db.find x = some e) : e ∈
   List.mem_of_find?_eq_some h
 
 theorem wf_link_ne (db : DB) (hwf : WfEntries db) (x : Id) (e : Entry) (h : db.find x = some e) : db.link x ≠ "" := by
-  rw [link_of_find db x e h]; exact (hwf e (find_mem db x e h)).1
+  rw [link_of_find db x e h]; exact (hwf.1 e (find_mem db x e h)).1
 
 theorem wf_find_none_of_link (db : DB) (hwf : WfEntries db) (x : Id) (h : db.link x = "") : db.find x = none := by
   cases hf : db.find x with
@@ -33,7 +34,27 @@ theorem wf_path_ne (db : DB) (hwf : WfEntries db) (bottom : Id) (ids : List Id) 
   have := isPath_present db bottom ids h "" hm
   cases hf : db.find "" with
   | none => rw [hf] at this; cases this
-  | some e => exact (hwf e (find_mem db "" e hf)).2.1 (find_id db "" e hf)
+  | some e => exact (hwf.1 e (find_mem db "" e hf)).2.1 (find_id db "" e hf)
+
+theorem find_of_mem_list (l : List Entry) (hnd : (l.map (·.blk.id)).Nodup) (e : Entry) (he : e ∈ l) :
+    l.find? (fun x => x.blk.id == e.blk.id) = some e := by
+  induction l with
+  | nil => simp at he
+  | cons a t ih =>
+    simp only [List.map_cons, List.nodup_cons] at hnd
+    rw [List.find?_cons]
+    simp only [List.mem_cons] at he
+    rcases he with rfl | he
+    · simp
+    · have : (a.blk.id == e.blk.id) = false := by
+        have : a.blk.id ≠ e.blk.id := fun hc => hnd.1 (List.mem_map.mpr ⟨e, he, hc.symm⟩)
+        simpa using this
+      simp only [this]
+      exact ih hnd.2 he
+
+/-- with unique ids, a stored entry is the one its id finds -/
+theorem find_of_mem (db : DB) (hwf : WfEntries db) (e : Entry) (he : e ∈ db.entries) : db.find e.blk.id = some e :=
+  find_of_mem_list db.entries hwf.2 e he
 
 /-- every block on a path is higher than what the path rests on -/
 theorem heights_path (db : DB) (hh : Heights db) (bottom : Id) (n : Nat) (ids : List Id) (h : IsPath db bottom ids)
